@@ -1276,7 +1276,14 @@ where
         let outer_vars = mem::take(&mut self.injecting_vars);
         let outer_slot_counter = mem::replace(&mut self.slot_counter, 1);
 
-        arrow_expr.visit_mut_children_with(self);
+        // default values of parameters are evaluated outside the body: what they need
+        // has to be declared in the enclosing scope
+        arrow_expr.params.visit_mut_with(self);
+        let param_consts = mem::take(&mut self.injecting_consts);
+        let param_vars = mem::take(&mut self.injecting_vars);
+        arrow_expr.type_params.visit_mut_with(self);
+        arrow_expr.return_type.visit_mut_with(self);
+        arrow_expr.body.visit_mut_with(self);
 
         if !self.injecting_consts.is_empty() || !self.injecting_vars.is_empty() {
             if let BlockStmtOrExpr::Expr(ret) = &*arrow_expr.body {
@@ -1314,8 +1321,10 @@ where
             }
         }
 
-        self.injecting_consts.splice(0..0, outer_consts);
-        self.injecting_vars.splice(0..0, outer_vars);
+        self.injecting_consts
+            .splice(0..0, outer_consts.into_iter().chain(param_consts));
+        self.injecting_vars
+            .splice(0..0, outer_vars.into_iter().chain(param_vars));
         self.slot_counter = outer_slot_counter;
     }
 
